@@ -196,7 +196,7 @@ func init() {
 		ID:        "C15",
 		Level:     "exploration",
 		Technique: "property-based testing (rapid) of algebraic relations between the three coercions, with boundary-value grids per numeric kind",
-		Rule: "Go values drawn by rapid: every numeric kind at its boundaries and at random, decimal numerals up to 24+24 digits, non-numeric strings, booleans, nil, typed nil pointers, slices, maps, structs, channels, funcs, types implementing exactly one of Stringer/Number/Boolean, decimals, all wrapped 0-3 times as safe values. " +
+		Rule: "Go values drawn by rapid: every numeric kind at its boundaries and at random, decimal numerals up to 24+24 digits, non-numeric strings, booleans, nil, typed nil pointers, slices, maps, structs, channels, funcs, types implementing exactly one of Stringer/Number/Boolean, decimals, all wrapped 0-3 times as safe values; nil pointers to types whose interface method has a value receiver or is promoted from an embedded struct. " +
 			"Oracles (relations from the statement): no panic; fallback '' / 0 / false for unsupported kinds; same integer in two carrier kinds coerces identically; safe(v) coerces like v and nested wrappers flatten; true/false -> '1'/'' and 1/0; numeral -> nearest float64 (math/big); number(string(f)) == f for finite float64; integral |f| < 1e6 prints as a plain integer; {{ v }} prints CoerceString(v). " +
 			"Non-trivial: the value is negative, fractional, >= 2^16 in magnitude, a boundary, wrapped, or of an unsupported kind; distinct by (relation, value).",
 		Assumptions: []string{"math/big is the reference for decimal -> float64 rounding"},
